@@ -394,6 +394,10 @@ def _value_sink(pm: ParserModel, fname: str, cfg: CFG, n: Node, call: ast.Call) 
     """(required slice count, description) for the Value built by `call`."""
     st = n.stmt
     par = pm.mod.parent.get(call)
+    # `V(x) if x else None`, `x and V(x)`: the value goes where the whole expression goes
+    while isinstance(par, (ast.IfExp, ast.BoolOp)) and pm.mod.parent.get(par) is not None:
+        call = par  # type: ignore[assignment]
+        par = pm.mod.parent.get(par)
     # X.throw = ... / X.noexcept = ...
     if isinstance(par, ast.Assign) and par.value is call:
         for t in par.targets:
